@@ -1,4 +1,5 @@
 import GcArena.Proofs.WriteCapLemmas
+import GcArena.Proofs.WriteCapBridge
 import GcArena.Generated.DerefWriteTable
 /-!
 # C13 — safe code cannot adopt a pointer without a write barrier
@@ -36,7 +37,7 @@ called from `Write::unlock`, `unsafe fn`s or after a barrier — then every item
 pointer-free, or a write barrier has been applied to every allocated object through which the
 place's storage is reachable.  Hence every `unlock`ed store is a guarded store of the collector
 model, to which C01 applies. -/
-theorem covered (t : Table) (hok : t.ok = true) (env : Env) (B : Obj → Prop) (it : Item)
+theorem covered (t : Table) (hok : t.ok = true) (env : Env) (B : WriteCap.Obj → Prop) (it : Item)
     (h : Der t env B it) : Covered env B it := by
   obtain ⟨hc, hp, hu, hf, hfm, hrs, hmt⟩ := Table.ok_unpack hok
   induction h with
@@ -92,6 +93,53 @@ theorem covered (t : Table) (hok : t.ok = true) (env : Env) (B : Obj → Prop) (
   | rawCell f p hm hbad =>
     have := hf f hm
     simp [hbad] at this
+
+/-! ## Bridge to the collector model
+
+`covered` ends in the calculus' own vocabulary (`Covered`).  The two theorems below connect it to
+`Model/Arena.lean`, under the interpretation of `Proofs/WriteCapBridge.lean`: objects are heap ids,
+`B := coverB a` is "`Cover.parent o ∈ a.cover`" (a `backward_barrier(o, None)` / `Gc::write` was
+issued on `o` in this callback and no collection call happened since), and an `unlock`ed store on
+holder `o` is `Op.store .raw o i v`.
+
+What remains informal (and is exercised by the run probes of `probes/gen_tables.py` and by the
+collector harness instead): (1) that the holders the calculus assigns to a place are the heap
+objects whose slots a real store through that place can change (`holders` / `Env.owners` are an
+abstraction of Rust ownership, `Recv.cls` is trusted); (2) that a place whose type is `'static`
+(`pf = true`) only ever receives pointer-free values, i.e. `v = none` at the level of slots;
+(3) that the `gcWrite` rule's premise `B o` is produced by the program — the table fact
+`barrier = true` says `Gc::write` calls `backward_barrier(gc, None)` first, and
+`WriteCap.barrier_establishes_cover` shows that this model step puts `Cover.parent o` into the cover
+and keeps every earlier one; (4) rustc admitting exactly the derivations of the calculus. -/
+
+/-- **Every store the calculus can derive is covered in the collector model.**  For a table
+satisfying `Table.ok`, a store item derived with `B = coverB a`, any holder `o` of its place and any
+slot value `v` it may be given (`none` if the place is pointer-free): the collector model's guard
+`Arena.coverOK o v` holds — the raw store is not a "bad-op". -/
+theorem covered_is_collector_cover (t : Table) (hok : t.ok = true) (a : GcArena.Arena) (env : Env)
+    (p : Place) (pf : Bool) (h : Der t env (coverB a) (.store p pf))
+    (o : WriteCap.Obj) (ho : o ∈ holders env p) (v : GcArena.Slot) (hv : pf = true → v = none) :
+    a.coverOK o v = true :=
+  covered_coverOK a env (.store p pf) (covered t hok env (coverB a) _ h) o ho v hv
+
+/-- … hence it is an accepted instance of `Op.store` with path `StorePath.raw`: with the side
+conditions every store shares (a callback is running, the client holds `o` and the value, slot `i`
+exists, a type with `NEEDS_TRACE = false` is given no pointer) `stepBody` executes it as `setSlot`,
+and the collector invariant `Inv` — from which C01 follows (`Props/C01`, `inv_run`) — is preserved. -/
+theorem derived_store_is_guarded_store (t : Table) (hok : t.ok = true) (a : GcArena.Arena)
+    (env : Env) (p : Place) (pf : Bool) (h : Der t env (coverB a) (.store p pf))
+    (o : WriteCap.Obj) (ho : o ∈ holders env p) (fin : Bool) (i : Nat) (v s : GcArena.Slot)
+    (hv : pf = true → v = none)
+    (hcb : a.cb.isSome = true) (hh : a.holds (.strong o) = true) (hs : a.holdsSlot v = true)
+    (hslot : GcArena.Arena.slotOf a.ctx o i = some s)
+    (htr : v.isSome = true → GcArena.Arena.isTracing a.ctx o = true)
+    (hinv : GcArena.Inv a) (hm : a.marked = false) :
+    a.stepBody fin (.store .raw o i v) =
+        ({ a with ctx := GcArena.Arena.setSlot a.ctx o i v }, "ok") ∧
+      GcArena.Inv (a.stepBody fin (.store .raw o i v)).1 :=
+  ⟨raw_store_accepted a fin o i v s (covered_is_collector_cover t hok a env p pf h o ho v hv)
+      hcb hh hs hslot htr,
+   GcArena.sb_store hinv hm fin .raw o i v⟩
 
 /-- The table extracted from the current source tree satisfies the hypothesis of `covered`. -/
 theorem table_ok : Generated.derefWriteTable.ok = true := by decide
